@@ -537,6 +537,12 @@ theorem seqC_group_block {b : Expr} {bs cs : List Expr} {t : Option String} {s :
   rw [seqC_cons, seqC_block]
   simp only [conv_group, conv_seq]
 
+/-- … and a directly nested one (no `Group` node in between) -/
+theorem seqC_seq_block {b : Expr} {bs cs : List Expr} {s : S0} {acc : List Pair} {r : R0} :
+    SeqC g inp (.seq (b :: bs) :: cs) s acc r ↔ SeqC g inp ((b :: bs) ++ cs) s acc r := by
+  rw [seqC_cons, seqC_block]
+  simp only [conv_seq]
+
 theorem seqC_congr_right {X Y : List Expr} (hE : X.isEmpty = Y.isEmpty)
     (h : ∀ s acc r, SeqC g inp X s acc r ↔ SeqC g inp Y s acc r) :
     ∀ (as : List Expr) (s : S0) (acc : List Pair) (r : R0),
@@ -643,6 +649,11 @@ theorem choiceC_group_block {bs cs : List Expr} {t : Option String} {s : S0} {r 
   rw [choiceC_cons, choiceC_append]
   simp only [conv_group, conv_choice]
 
+theorem choiceC_choice_block {bs cs : List Expr} {s : S0} {r : R0} :
+    ChoiceC g inp (.choice bs :: cs) s r ↔ ChoiceC g inp (bs ++ cs) s r := by
+  rw [choiceC_cons, choiceC_append]
+  simp only [conv_choice]
+
 theorem choiceC_congr_right {X Y as : List Expr} {s : S0} (h : ∀ r, ChoiceC g inp X s r ↔ ChoiceC g inp Y s r)
     {r : R0} : ChoiceC g inp (as ++ X) s r ↔ ChoiceC g inp (as ++ Y) s r := by
   rw [choiceC_append, choiceC_append]
@@ -683,6 +694,15 @@ theorem seq_assoc (as : List Expr) (b : Expr) (bs cs : List Expr) (t : Option St
   intro s acc r
   exact seqC_group_block
 
+/-- (2) the same for a directly nested sequence -/
+theorem seq_flatten (as : List Expr) (b : Expr) (bs cs : List Expr) :
+    EquivAt g inp (.seq (as ++ [.seq (b :: bs)] ++ cs)) (.seq (as ++ (b :: bs) ++ cs)) := by
+  intro s r
+  rw [conv_seq, conv_seq, List.append_assoc, List.append_assoc]
+  apply seqC_congr_right (by simp)
+  intro s acc r
+  exact seqC_seq_block
+
 theorem seq_assoc_right (a b c : Expr) (t : Option String) :
     EquivAt g inp (.seq [a, .group (.seq [b, c]) t]) (.seq [a, b, c]) :=
   seq_assoc [a] b [c] [] t
@@ -699,6 +719,14 @@ theorem choice_assoc (as bs cs : List Expr) (t : Option String) :
   apply choiceC_congr_right
   intro r
   exact choiceC_group_block
+
+theorem choice_flatten (as bs cs : List Expr) :
+    EquivAt g inp (.choice (as ++ [.choice bs] ++ cs)) (.choice (as ++ bs ++ cs)) := by
+  intro s r
+  rw [conv_choice, conv_choice, List.append_assoc, List.append_assoc]
+  apply choiceC_congr_right
+  intro r
+  exact choiceC_choice_block
 
 theorem choice_assoc_right (a b c : Expr) (t : Option String) :
     EquivAt g inp (.choice [a, .group (.choice [b, c]) t]) (.choice [a, b, c]) :=
@@ -2045,6 +2073,25 @@ theorem extract_silent_grammar {nm : String} {e : Expr} {kind : RuleKind} {g2 : 
   · rintro x x' ⟨rfl, t, rfl⟩
     exact (silent_rule_inline hnm silent_bits.1 silent_bits.2.1 silent_bits.2.2.1 silent_bits.2.2.2 hT t).symm
 
+/-- (6, expressions) `⟦C[e]⟧` in `g` is `⟦C[nm]⟧` in the extended grammar, for every context
+    `C` (indeed for any number of replaced occurrences) that does not mention `nm` -/
+theorem extract_silent_expr {nm : String} {e : Expr} {kind : RuleKind} {g2 : Grammar}
+    (hfresh : g.lookup nm = none) (hu : Unreferenced g nm)
+    (h1 : nm ≠ "WHITESPACE") (h2 : nm ≠ "COMMENT") (h3 : nm ≠ "SKIP")
+    (hG : GrammarRel (RefTo nm e) (addRule g ⟨nm, SILENT, e, kind⟩) g2)
+    (hnm : g2.lookup nm = some ⟨nm, SILENT, e, kind⟩)
+    {x x' : Expr} (hx : mentions nm x = false) (hxx : Cong (RefTo nm e) x x') (s : S0) (r : R0) :
+    Conv g inp x s r ↔ Conv g2 inp x' s r := by
+  have hT : L1.isTriviaName nm = false := by simp [L1.isTriviaName, h1, h2]
+  have hl : (addRule g ⟨nm, SILENT, e, kind⟩).lookup nm = some ⟨nm, SILENT, e, kind⟩ :=
+    lookup_addRule_self (rl := ⟨nm, SILENT, e, kind⟩) hfresh
+  rw [← addRule_away (rl := ⟨nm, SILENT, e, kind⟩) hu h1 h2 h3 hx s r]
+  apply cong_grammar hG _ _ hxx
+  · rintro x x' ⟨rfl, t, rfl⟩
+    exact (silent_rule_inline hl silent_bits.1 silent_bits.2.1 silent_bits.2.2.1 silent_bits.2.2.2 hT t).symm
+  · rintro x x' ⟨rfl, t, rfl⟩
+    exact (silent_rule_inline hnm silent_bits.1 silent_bits.2.1 silent_bits.2.2.1 silent_bits.2.2.2 hT t).symm
+
 /-! ### the rewrites of property C08 as one relation -/
 
 /-- the meaning-preserving rewrites, in both directions -/
@@ -2054,6 +2101,10 @@ inductive Rewrite (inp : Input) : Expr → Expr → Prop
       Rewrite inp (.seq (as ++ (b :: bs) ++ cs)) (.seq (as ++ [.group (.seq (b :: bs)) t] ++ cs))
   | choiceAssoc (as bs cs : List Expr) (t : Option String) :
       Rewrite inp (.choice (as ++ bs ++ cs)) (.choice (as ++ [.group (.choice bs) t] ++ cs))
+  | seqFlat (as : List Expr) (b : Expr) (bs cs : List Expr) :
+      Rewrite inp (.seq (as ++ (b :: bs) ++ cs)) (.seq (as ++ [.seq (b :: bs)] ++ cs))
+  | choiceFlat (as bs cs : List Expr) :
+      Rewrite inp (.choice (as ++ bs ++ cs)) (.choice (as ++ [.choice bs] ++ cs))
   | dup (e : Expr) (t : Option String) : Rewrite inp e (.group (.choice [e, e]) t)
   | neverSeq (e : Expr) (x : Str) (t1 t2 : Option String) : NeverAt inp x →
       Rewrite inp e (.group (.choice [.group (.seq [e, .str x]) t1, e]) t2)
@@ -2066,6 +2117,8 @@ theorem Rewrite.sound (ht : TriviaTotal g inp) {x x' : Expr} (h : Rewrite inp x 
   | paren e t => exact (group_id e t).symm
   | seqAssoc as b bs cs t => exact (seq_assoc as b bs cs t).symm
   | choiceAssoc as bs cs t => exact (choice_assoc as bs cs t).symm
+  | seqFlat as b bs cs => exact (seq_flatten as b bs cs).symm
+  | choiceFlat as bs cs => exact (choice_flatten as bs cs).symm
   | dup e t => exact (dup_choice e t).symm
   | neverSeq e x t1 t2 hx => exact (never_seq e hx ht t1 t2).symm
   | neverNot e x t1 t2 hx => exact (never_notpred e hx ht t1 t2).symm
